@@ -105,4 +105,16 @@ PROPS["C13"] = {
     "assumptions": ["frames that are not requests at all (response opcodes, invalid opcodes) may be dropped by closing the connection"],
 }
 
+PROPS["C08"] = {
+    "module": "CqlVerif.Props.C08",
+    "gens": ["policy"],
+    "streams": [{"name": "prep", "quick": 800, "thorough": 30000}],
+    "shrink": False,
+    "claim": "Lean theorems unprepared_recovered, cache_filled, execute_answered, execute_succeeds over Model/Prepared for every plan and every backend/proxy state (hosts that never saw the PREPARE, restarted hosts, hosts added later, failing/dropped re-prepares); tied to clientconn.go/connpool.go/session.go by the prep e2e stream (backends that execute an id only if a PREPARE reached them, each compression, late-added hosts, ids inside batches)",
+    "note": "trusted: Lean kernel, hand-written model + e2e correspondence; the cache is modelled as a map (LRU eviction beyond ~390k entries is outside: hypothesis 'still cached' is explicit); backend assumption: after a successful PREPARE the same connection executes the id",
+    "rule": "prep: histories of PREPARE/EXECUTE/BATCH(prepared child) over 1-3 hosts (+1 joining later), none/lz4/snappy, node restarts (forget), scripted failure (error / connection drop) of the next PREPARE on a node; compared: every client reply class and the hosts that received re-prepares; PreparedOK oracle on the real replies; distinct = distinct histories",
+    "trusted_base": [KERNEL, DRIVER, HARNESS, "Model/Prepared.lean hand-written"],
+    "assumptions": ["the statement is still in the proxy's prepared cache", "re-prepare PREPAREs are answered or their connection dropped"],
+}
+
 NOT_APPLICABLE = {}
